@@ -58,6 +58,42 @@ Definition m_rows (nta : nat) (pairs : list (nat * nat)) (wrow : nat -> K) : lis
                                         kobs := ksub (at2 I (fst (snd mp)) t) (at2 I (snd (snd mp)) t);
                                         kwgt := wrow (t * nm + fst mp) |})
                          (combine (seq 0 nm) pairs)) (seq 0 nt).
+
+(* ---------------- double ended ----------------
+   rows are x-major: row r = j * nt + t.  i0 is the first reference location: its alpha is 0 by definition and has no column.
+   F: I_F = gamma/T - DF(t) - alpha(x) - sum_{k: x >= ta_k} TAF_k(t)
+   B: I_B = gamma/T - DB(t) + alpha(x) - sum_{k: x <  ta_k} TAB_k(t) *)
+Variables (IB : list (list K)) (khalf : K) (nta : nat) (i0 : nat).
+Let kmhalf := kopp khalf.
+Definition alpha_entry (i : nat) (c : K) : list (param * K) := if Nat.eqb i i0 then [] else [(Alpha i, c)].
+Definition inact (i : nat) : list nat := filter (fun k => negb (memb k (act i))) (seq 0 nta).
+
+Definition de_form_F (t : nat) (ib : nat * nat) : list (param * K) :=
+  (Gamma, at2 ginv (snd ib) t) :: (DF t, kmone) :: alpha_entry (fst ib) kmone ++ map (fun k => (TAF k t, kmone)) (act (fst ib)).
+Definition de_form_B (t : nat) (ib : nat * nat) : list (param * K) :=
+  (Gamma, at2 ginv (snd ib) t) :: (DB t, kmone) :: alpha_entry (fst ib) kone ++ map (fun k => (TAB k t, kmone)) (inact (fst ib)).
+
+Definition de_rows_FB (wF wB : nat -> nat -> K) : list krow :=
+  flat_map (fun ib => map (fun t => {| kform := de_form_F t ib; kobs := at2 I (fst ib) t; kwgt := wF (fst ib) t |}) (seq 0 nt)) locs ++
+  flat_map (fun ib => map (fun t => {| kform := de_form_B t ib; kobs := at2 IB (fst ib) t; kwgt := wB (fst ib) t |}) (seq 0 nt)) locs.
+
+(* matching sections.  EQ1: F_h - F_t ; EQ2: B_h - B_t ; EQ3 (locations in no reference section): (B - F)/2 *)
+Definition pm (k : nat) (lpos lneg : list nat) (c : K) (a : param) : list (param * K) :=
+  match memb k lpos, memb k lneg with true, false => [(a, c)] | false, true => [(a, kopp c)] | _, _ => [] end.
+Definition eq1_form (t : nat) (p : nat * nat) : list (param * K) :=
+  alpha_entry (fst p) kmone ++ alpha_entry (snd p) kone ++ flat_map (fun k => pm k (act (snd p)) (act (fst p)) kone (TAF k t)) (seq 0 nta).
+Definition eq2_form (t : nat) (p : nat * nat) : list (param * K) :=
+  alpha_entry (fst p) kone ++ alpha_entry (snd p) kmone ++ flat_map (fun k => pm k (inact (snd p)) (inact (fst p)) kone (TAB k t)) (seq 0 nta).
+Definition eq3_form (t : nat) (i : nat) : list (param * K) :=
+  alpha_entry i kone ++ (DF t, khalf) :: (DB t, kmhalf) ::
+  map (fun k => (TAF k t, khalf)) (act i) ++ map (fun k => (TAB k t, kmhalf)) (inact i).
+Definition de_rows_match (pairs : list (nat * nat)) (notcal : list nat) (w1 w2 : nat -> nat -> K) (w3 : nat -> nat -> K) (kmulhalf : K -> K) : list krow :=
+  flat_map (fun mp => map (fun t => {| kform := eq1_form t (snd mp); kobs := ksub (at2 I (fst (snd mp)) t) (at2 I (snd (snd mp)) t); kwgt := w1 (fst mp) t |}) (seq 0 nt))
+           (combine (seq 0 (length pairs)) pairs) ++
+  flat_map (fun mp => map (fun t => {| kform := eq2_form t (snd mp); kobs := ksub (at2 IB (fst (snd mp)) t) (at2 IB (snd (snd mp)) t); kwgt := w2 (fst mp) t |}) (seq 0 nt))
+           (combine (seq 0 (length pairs)) pairs) ++
+  flat_map (fun mi => map (fun t => {| kform := eq3_form t (snd mi); kobs := kmulhalf (ksub (at2 IB (snd mi) t) (at2 I (snd mi) t)); kwgt := w3 (fst mi) t |}) (seq 0 nt))
+           (combine (seq 0 (length notcal)) notcal).
 End Rows.
 Arguments krow : clear implicits.
 
@@ -69,3 +105,12 @@ Definition cell_x_major (n nt r : nat) : nat * nat := (r / nt, r mod nt).    (* 
 Definition cols_se (nt nx nta : nat) (with_alpha : bool) : list param :=
   Gamma :: (if with_alpha then map Alpha (seq 0 nx) else [DAlpha]) ++ map C (seq 0 nt)
   ++ flat_map (fun k => map (TA k) (seq 0 nt)) (seq 0 nta).
+
+(* reduced column order of the double-ended solver: gamma | df | db | alpha at the listed locations | per splice: TAF(t), TAB(t) *)
+Definition cols_de (nt nta : nat) (alpha_locs : list nat) : list param :=
+  Gamma :: map DF (seq 0 nt) ++ map DB (seq 0 nt) ++ map Alpha alpha_locs
+  ++ flat_map (fun k => map (TAF k) (seq 0 nt) ++ map (TAB k) (seq 0 nt)) (seq 0 nta).
+(* sorted union without repetition (np.unique of concatenated index lists) *)
+Fixpoint insert_u (a : nat) (l : list nat) : list nat :=
+  match l with [] => [a] | h :: t => if Nat.ltb a h then a :: l else if Nat.eqb a h then l else h :: insert_u a t end.
+Definition uniq_sorted (l : list nat) : list nat := fold_right insert_u [] l.
